@@ -4,6 +4,7 @@
 -/
 import Scico.Model.Estim
 import Mathlib.Analysis.Real.Sqrt
+import Mathlib.Analysis.Complex.Norm
 import Mathlib.Algebra.BigOperators.Fin
 import Mathlib.LinearAlgebra.Matrix.Charpoly.Basic
 import Mathlib.Algebra.Polynomial.Roots
@@ -252,6 +253,20 @@ theorem singular_values_diagonal_sum (d : Fin n → ℝ) :
   show (Finset.univ.val.map fun i => Real.sqrt (d i ^ 2)).sum = _
   simp only [Real.sqrt_sq_eq_abs]
   rfl
+
+/-! ### complex diagonals -/
+
+theorem cabs_eq_norm (z : ℂ) : cabs (z.re, z.im) = ‖z‖ := by
+  simp [cabs, Complex.norm_eq_sqrt_sq_add_sq, sq]
+
+theorem diagNormC_eq (z : Fin n → ℂ) (o : Ord) :
+    diagNormC o (List.ofFn fun i => ((z i).re, (z i).im)) = diagNorm o (List.ofFn fun i => ‖z i‖) := by
+  have h1 : (cabs ∘ fun i => ((z i).re, (z i).im)) = fun i => ‖z i‖ := by
+    funext i; exact cabs_eq_norm (z i)
+  have h2 : (HasAbs.abs ∘ fun i => ‖z i‖) = fun i => ‖z i‖ := by
+    funext i; simp
+  unfold diagNormC diagNorm
+  simp only [List.map_ofFn, h1, h2]
 
 /-! ### estimators -/
 
